@@ -346,3 +346,11 @@ pub proof fn lemma_tz_irrelevant(mode: RoundingMode, sign: Sign, l: u8, d: u8, t
     requires !needs_tz(mode, d), l <= 9, d <= 9
     ensures round_pair_spec(mode, sign, l, d, tz) == round_pair_spec(mode, sign, l, d, false)
 {}
+
+/// rendering of a value v in {0, 1} units of 10^-ts with no integer part: "v" when ts == 0, else "0." + zeros + v
+pub open spec fn noint_small_render(out: Seq<u8>, ts: int, v: int) -> bool {
+    &&& 0 <= v <= 1
+    &&& out.len() == (if ts == 0 { 1int } else { ts + 2 })
+    &&& out.last() == 48 + v
+    &&& (ts > 0 ==> out[1] == 46u8 && out[0] == 48u8 && (forall|i: int| 2 <= i < ts + 1 ==> #[trigger] out[i] == 48u8))
+}
